@@ -2,7 +2,8 @@
 //! (`processing_loop` → `set_status(Stopping)` → `post_stop` → `ActorLifecycleGuard::cleanup` →
 //! `set_status(Stopped)` → `notify_stop_listener`) driven point by point on the OS thread that runs
 //! the actor's task, racing waiter OS threads that poll `ActorCell::wait()` by hand
-//! (`wait.poll` = harness point before every poll, `wait.created` = the point inside `wait()`).
+//! (`wait.poll` = harness point before every poll, `wait.created` / `wait.checked` = the points inside `wait()`:
+//! after `notified()`, and between the status read and the first poll of the `Notified`).
 //!
 //! After every granted step the controller records the actor's status and what a snapshot shows:
 //! name / pid registration, group membership, group monitor entry, number of children, supervisor
@@ -214,6 +215,7 @@ fn is_model_point(p: &str) -> bool {
             | "cleanup.stopped"
             | "wait.poll"
             | "wait.created"
+            | "wait.checked"
             | "drain.status"
     )
 }
@@ -221,7 +223,7 @@ fn is_model_point(p: &str) -> bool {
 /// exiter points before `cleanup.stopped`: they touch neither `Stopped` nor `Notify`
 fn is_pre_stop_point(p: &str) -> bool {
     is_model_point(p)
-        && !matches!(p, "cleanup.stopped" | "status.notify" | "notify.waiters" | "notify.one" | "wait.poll" | "wait.created" | "drain.status")
+        && !matches!(p, "cleanup.stopped" | "status.notify" | "notify.waiters" | "notify.one" | "wait.poll" | "wait.created" | "wait.checked" | "drain.status")
 }
 
 struct Env {
@@ -571,7 +573,7 @@ fn run_case(env: &mut Env, cause: &str, kinds: &[WKind], ndrain: usize, collapse
                     post_polls[i] += 1;
                 }
                 sent[i] = true;
-                if p == "wait.created" {
+                if p == "wait.checked" {
                     past_created[i] = true;
                 }
                 wctls[i].grant();
